@@ -4,6 +4,9 @@
      (one row of payments per profile entry, indexed by project id; entries are the voters, as
       `enumerate(profile)` sees them)
   `round2 x=<rat>` -> `ok <rat>`
+  `pricerelax <as price> relax=mul|add|vec|vecpos|off|none beta=<rat> betav=<rat>,…(by project id)`
+     -> `ok <validateRelaxed> <exactRelaxed> <id>:<relaxed cost>,…`
+     (the relaxed validator with the relaxed-cost shape of the named relaxation class and its saved β)
 -/
 import Driver.Proto
 import PabuModel.Price
@@ -25,5 +28,31 @@ def cmdPrice (a : Args) : String :=
   "ok " ++ (if Price.validate X st ex then "1" else "0") ++ " " ++ (if Price.exact X st ex then "1" else "0")
 
 def cmdRound2 (a : Args) : String := "ok " ++ showRat (Price.round2 (ratD (a.get "x")))
+
+/-- the relaxed-cost function of a relaxation class with its saved β (`get_relaxed_cost`) -/
+def relaxedCost (cost : Pid → Rat) (kind : String) (β : Rat) (βv : Pid → Rat) : Pid → Rat :=
+  if kind == "mul" then Price.rcMinMul cost β
+  else if kind == "add" then Price.rcMinAdd cost β
+  else if kind == "vec" || kind == "vecpos" then Price.rcMinAddVector cost βv
+  else if kind == "off" then Price.rcMinAddOffset cost β βv
+  else cost
+
+def cmdPriceRelax (a : Args) : String :=
+  let I := parseInst a
+  let P := parseProfile a
+  let rows : List (List Rat) := (splitNE (a.get "pf") "|").map (fun r => (splitNE r ",").map ratD)
+  let N : List Price.PVoter :=
+    (List.range P.length).map (fun i =>
+      { app := fun c => (P[i]?.map (fun e => e.1.mem c)).getD false,
+        pay := fun c => (rows.getD i []).getD c 0 })
+  let X : Price.Input :=
+    { C := I.projects, cost := I.cost, budget := I.budget, W := parseIds (a.get "W"), N := N, b := ratD (a.get "b") }
+  let st := a.get "stable" == "1"
+  let ex := a.get "exh" == "1"
+  let bv : List Rat := (splitNE (a.get "betav") ",").map ratD
+  let rc := relaxedCost I.cost (a.get "relax") (ratD (a.get "beta")) (fun c => bv.getD c 0)
+  "ok " ++ (if Price.validateRelaxed X rc st ex then "1" else "0") ++ " " ++
+    (if Price.exactRelaxed X rc st ex then "1" else "0") ++ " " ++
+    ",".intercalate (I.projects.map (fun c => toString c ++ ":" ++ showRat (rc c)))
 
 end Pabu.Driver
